@@ -5,12 +5,14 @@ import (
 	"math/rand"
 	"strconv"
 	"strings"
+	"time"
 
 	"github.com/crillab/gophersat/solver"
 )
 
 // SolveCfg is a solver configuration (C01/C06 quantify over these).
 type SolveCfg struct {
+	Slow  bool `json:"slow,omitempty"` // the certificate consumer pauses 120 ms after each of the first lines
 	Cert  bool `json:"cert"`
 	NbMax int  `json:"nbmax"` // 0: default
 	CP    bool `json:"cp"`
@@ -218,7 +220,11 @@ func solveOnce(c *SolveCase) (verdict int, model []bool, cert [][]int, inv strin
 			close(s.CertChan)
 			done <- res
 		}()
+		nread := 0
 		for line := range s.CertChan {
+			if nread++; c.Cfg.Slow && nread <= 3 {
+				time.Sleep(120 * time.Millisecond)
+			}
 			cl, ok := parseCertLine(line)
 			if !ok {
 				panic("certificate line is not a clause: " + line)
@@ -265,4 +271,38 @@ func runSolve(e *emitter, idx int, c *SolveCase, withCert bool) {
 		e.out.Sync()
 		panic("timeout: restart")
 	}
+}
+
+// genC06: conflict-rich CNF only (no tiny enumeration), certificate always on; a few large instances whose Unsat
+// answers are justified by the certificate alone, and a few slow certificate consumers.
+func genC06(r *rand.Rand, idx int, tier string) *SolveCase {
+	cfgs := []SolveCfg{{Cert: true}, {Cert: true, NbMax: 4}, {Cert: true, NbMax: 20}}
+	cfg := cfgs[idx%len(cfgs)]
+	var p *Prob
+	switch r.Intn(25) / 2 {
+	case 0:
+		p = &Prob{Front: "slice", Cons: pigeonhole(2 + r.Intn(3)), Class: "pigeon"}
+		r.Shuffle(len(p.Cons), func(i, j int) { p.Cons[i], p.Cons[j] = p.Cons[j], p.Cons[i] })
+	case 1:
+		p = &Prob{Front: "slice", Cons: parityChain(r, 6+r.Intn(12)), Class: "parity"}
+		r.Shuffle(len(p.Cons), func(i, j int) { p.Cons[i], p.Cons[j] = p.Cons[j], p.Cons[i] })
+	case 2:
+		p = genProblem(r, "cnf", 3+r.Intn(12))
+	case 12: // large: only the certificate can justify Unsat
+		n := 30 + r.Intn(21)
+		m := int(float64(n) * (4.1 + r.Float64()*0.5))
+		p = &Prob{Front: "slice", Cons: genCNF(r, n, m, 3, 3, 0, 0), Class: "cnf3huge"}
+	case 3, 4, 5, 6, 7:
+		n := 15 + r.Intn(10)
+		m := int(float64(n) * (4.0 + r.Float64()*0.8))
+		p = &Prob{Front: "slice", Cons: genCNF(r, n, m, 3, 3, 0, 0), Class: "cnf3big"}
+	default:
+		n := 6 + r.Intn(13)
+		m := int(float64(n) * (3.8 + r.Float64()*1.2))
+		p = &Prob{Front: "slice", Cons: genCNF(r, n, m, 3, 3, 0, 0), Class: "cnf3"}
+	}
+	if r.Intn(100) == 0 {
+		cfg.Slow = true
+	}
+	return &SolveCase{P: p, Cfg: cfg}
 }
